@@ -64,6 +64,8 @@ func (o cOp) String() string {
 		return fmt.Sprintf("READDIR %s", d[o.Dir])
 	case "readdirplus":
 		return fmt.Sprintf("READDIRPLUS %s", d[o.Dir])
+	case "sweep":
+		return "GETATTR of every extra file"
 	}
 	return fmt.Sprintf("%s %s/%s", strings.ToUpper(o.Kind), d[o.Dir], o.Name)
 }
@@ -220,6 +222,8 @@ func cStep(s cState, o cOp, r cRes) (bool, cState) {
 		return r.OK && r.Names == s.listing(o.Dir) && r.Plus == s.plus(o.Dir), s
 	case "getattr":
 		return r.OK && r.Size == s.Size[o.File], s
+	case "sweep":
+		return r.OK, s
 	case "read":
 		if !r.OK {
 			return false, s
@@ -326,6 +330,24 @@ type cWorld struct {
 	Dirs     [3]nt.Nfs_fh3
 	Files    [2]nt.Nfs_fh3
 	Init     cState
+	Extra    []nt.Nfs_fh3 // further files in the root that the programs only look at (a working set larger than the inode cache)
+}
+
+// addExtras creates n more files in the root; a "sweep" operation looks at all of them.
+func (w *cWorld) addExtras(n int) error {
+	api := w.S.API()
+	fixed := append([]string{}, w.Init.Fixed...)
+	for i := 0; i < n; i++ {
+		name := fmt.Sprintf("g%03d", i)
+		r := api.NFSPROC3_CREATE(nt.CREATE3args{Where: nt.Diropargs3{Dir: w.Dirs[0], Name: nt.Filename3(name)}})
+		if r.Status != nt.NFS3_OK {
+			return fmt.Errorf("create %s: %d", name, r.Status)
+		}
+		w.Extra = append(w.Extra, r.Resok.Obj.Handle)
+		fixed = append(fixed, name)
+	}
+	w.Init.Fixed = fixed
+	return nil
 }
 
 // setupWorld formats a disk and creates the fixed namespace.  With lowChildren, the inode numbers are
@@ -428,6 +450,14 @@ func (w *cWorld) exec(api API, o cOp) cRes {
 		sort.Strings(sizes)
 		sort.Strings(handles)
 		return cRes{OK: r.Status == nt.NFS3_OK && r.Resok.Reply.Eof, Names: strings.Join(names, ","), Plus: strings.Join(append(sizes, handles...), ",")}
+	case "sweep":
+		ok := true
+		for _, h := range w.Extra {
+			if api.NFSPROC3_GETATTR(nt.GETATTR3args{Object: h}).Status != nt.NFS3_OK {
+				ok = false
+			}
+		}
+		return cRes{OK: ok}
 	case "getattr":
 		r := api.NFSPROC3_GETATTR(nt.GETATTR3args{Object: w.Files[o.File]})
 		return cRes{OK: r.Status == nt.NFS3_OK, Size: uint64(r.Resok.Obj_attributes.Size)}
@@ -454,6 +484,8 @@ type cGenCfg struct {
 	// RootPlus: READDIRPLUS of the root (the only directory all of whose entries come after it in the lock
 	// order; READDIRPLUS of other directories is known finding KF1 and stays out of concurrent programs)
 	RootPlus bool
+	// Sweep: operations that look at every extra file (the world must have been given some with addExtras)
+	Sweep bool
 }
 
 func genCOp(t *rapid.T, cfg cGenCfg, tag *uint32) cOp {
@@ -464,13 +496,16 @@ func genCOp(t *rapid.T, cfg cGenCfg, tag *uint32) cOp {
 			kinds = append(kinds, "readdirplus")
 		}
 	}
+	if cfg.Sweep {
+		kinds = append(kinds, "sweep", "sweep", "sweep")
+	}
 	if cfg.DataOps {
 		kinds = append(kinds, "write", "write", "read", "read", "setattr", "getattr")
 	}
 	o := cOp{Kind: pick(t, kinds, "kind"), Dir: rapid.IntRange(0, 2).Draw(t, "dir"), File: rapid.IntRange(0, 1).Draw(t, "file")}
 	if cfg.Focus {
 		defer func(o *cOp) {
-			if o.Kind == "readdirplus" {
+			if o.Kind == "readdirplus" || o.Kind == "sweep" {
 				return
 			}
 			o.Dir, o.Dir2, o.File = cfg.FocusDir, cfg.FocusDir, 0
@@ -714,6 +749,8 @@ func conflicting(ops []porcupine.Operation) int {
 			return []string{fmt.Sprintf("%d/*", o.Dir)}
 		case "readdirplus":
 			return []string{fmt.Sprintf("%d/*", o.Dir), "f0", "f1"}
+		case "sweep":
+			return nil
 		}
 		return []string{fmt.Sprintf("%d/%s", o.Dir, o.Name)}
 	}
